@@ -673,6 +673,9 @@ static void WikiSort(T *restrict array, const size_t size) {
 					else if (Range_length(buffer2) > 0)
 						BlockSwap(array, lastA.start, buffer2.start, Range_length(lastA));
 					
+					/* no full-size A block at all (the uneven first block is all
+					 * of A), nothing to roll through B then */
+					if (Range_length(blockA) > 0)
 					while (true) {
 						/* if there's a previous B block and the first value of the minimum A block is <= the last value of the previous B block, */
 						/* then drop that minimum A block behind. or if there are no B blocks left then keep dropping the remaining A blocks. */
